@@ -1123,6 +1123,7 @@ Ops!(
     b""           , [0xCF              ], X, WORD_SIZE;
 ]
 "jecxz" = [
+    b"ob"         , [0xE3              ], X, X86_ONLY;
     b"ob"         , [0xE3              ], X, PREF_67;
 ]
 "jrcxz" = [
